@@ -269,10 +269,20 @@ def run_case(case):
             'other': kinds[3], 'sched': sched}
 
 
+MC_CHANNELS = ['a', 'b', 'c']
+
+
 def run_mc(case):
-    """call()/wait() on several channels (outside the Coq model; oracle only): a waiter component plus one component per
-    channel with a plain handler of e1; the event is fired on the channels in case['fire']."""
+    """call()/wait() on several channels (outside the Coq model; oracle only).  A waiter component on channel 'app' plus one
+    component per channel a, b, c with a plain handler of e1 (returns 1, 2, 3; with 'craise' the one on the first channel the
+    event goes to raises).  wait: the event is fired by the harness on the channels case['fire'] three ticks after the wait
+    began; call: the waiter fires it itself on case['chans'].  'tmo' = timeout or None, 'araise' = the waiter raises right after
+    having been resumed.  Observable: the waiter's log, the handler-table difference, the task set size."""
     log = []
+    chans, fire = list(case['chans']), list(case.get('fire') or [])
+    tmo, craise, araise = case.get('tmo'), bool(case.get('craise')), bool(case.get('araise'))
+    goes_to = chans if case['op'] == 'call' else fire
+    bad_ch = goes_to[0] if (craise and goes_to) else None
 
     class e1(Event):
         pass
@@ -282,11 +292,18 @@ def run_mc(case):
 
         @handler('go')
         def go(self):
-            if case['op'] == 'call':
-                x = yield self.call(e1(), *case['chans'])
-            else:
-                x = yield self.wait('e1', *case['chans'])
-            log.append(sorted(enc_value(x)))
+            kw = {} if tmo is None else {'timeout': tmo}
+            try:
+                if case['op'] == 'call':
+                    x = yield self.call(e1(), *chans, **kw)
+                else:
+                    x = yield self.wait('e1', *chans, **kw)
+                log.append([2, sorted(enc_value(x)), 1 if x.errors else 0])
+            except CTimeout:
+                log.append([3])
+            if araise:
+                raise Scripted('scripted')
+            yield 5
 
         @handler('exception')
         def _on_exc(self, *a, **k):
@@ -298,13 +315,16 @@ def run_mc(case):
 
             @handler('e1')
             def _e1(self):
+                if ch == bad_ch:
+                    raise Scripted('scripted')
                 return v
         return C()
 
     app = Waiter()
-    for i, ch in enumerate(sorted(set(case['chans']) | set(case['fire']))):
+    for i, ch in enumerate(MC_CHANNELS):
         mk(ch, i + 1).register(app)
     app._executing_thread = threading.current_thread()
+    app._running = True
     for _ in range(4):
         app.tick(0)
 
@@ -314,13 +334,47 @@ def run_mc(case):
     app.fire(Event.create('go'))
     for _ in range(3):
         app.tick(0)
-    if case['op'] == 'wait':
-        app.fire(e1(), *case['fire'])
-    for _ in range(12):
+    if case['op'] == 'wait' and fire:
+        app.fire(e1(), *fire)
+    for _ in range(16):
         app.tick(0)
     h1 = snap()
     diff = sorted([k, h1.get(k, 0) - h0.get(k, 0)] for k in set(h0) | set(h1) if h1.get(k, 0) != h0.get(k, 0))
-    return {'mc': [len(log), diff, len(getattr(app, '_tasks', []))]}
+    return {'mc': [log, diff, len(getattr(app, '_tasks', []))]}
+
+
+def mc_expect(case):
+    """what the property statement demands of a multi-channel case -> (expected waiter log, expected handler-table difference)"""
+    chans, fire = list(case['chans']), list(case.get('fire') or [])
+    tmo = case.get('tmo')
+    goes_to = chans if case['op'] == 'call' else fire
+    hit = case['op'] == 'call' or bool(set(fire) & set(chans))
+    if tmo == 0 or (tmo is not None and not hit):
+        return [[3]], []
+    if not hit:
+        return [], None       # still waiting, legitimately: how many handlers that takes is the implementation's business
+    vals, errs = [], 0
+    for ch in goes_to:
+        if case.get('craise') and ch == goes_to[0]:
+            vals.append(-1)
+            errs = 1
+        else:
+            vals.append(MC_CHANNELS.index(ch) + 1)
+    return [[2, sorted(vals), errs]], []
+
+
+def mc_cases():
+    out = []
+    for op in ('call', 'wait'):
+        for chans in (['a'], ['a', 'b'], ['b', 'a'], ['a', 'b', 'c'], ['c', 'a']):
+            fires = [[]] if op == 'call' else [[], [chans[0]], [chans[-1]], list(chans), ['c'], ['b', 'c']]
+            for fire in fires:
+                hit = op == 'call' or bool(set(fire) & set(chans))
+                for tmo in ([None, 0, 9] if hit else [None, 0, 2]):
+                    for craise in ((0, 1) if (op == 'call' or fire) else (0,)):
+                        for araise in (0, 1):
+                            out.append({'k': 'mc', 'op': op, 'chans': chans, 'fire': fire, 'tmo': tmo, 'craise': craise, 'araise': araise})
+    return out
 
 
 # ------------------------------------------------------------------------------------- case generation
@@ -731,10 +785,6 @@ class C06(Prop):
         self.stats = {}
         self._sched = {}
 
-    MC = [{'k': 'mc', 'op': op, 'chans': ch, 'fire': fire}
-          for op in ('call', 'wait') for ch in (['a', 'b'], ['b', 'a'], ['a'])
-          for fire in ([ch[0]], [ch[-1]], list(ch)) if not (op == 'call' and fire != [ch[0]])]
-
     def generate(self, rng, n, tier):
         cases = [gen_case(rng, tier) for _ in range(n)]
         kinds = {}
@@ -755,7 +805,9 @@ class C06(Prop):
             c['perturb'] = rng.choice([1, 3, 10, 50, 200, 1000])
             pert.append(c)
         cases = cases + pert
-        mc = [dict(c) for c in self.MC]
+        mc = mc_cases()
+        if tier != 'thorough':
+            mc = rng.sample(mc, 70)
         self.stats = {'distribution': {'step_kinds': kinds, 'cases': len(cases), 'multi_channel_cases': len(mc), 'allocation_perturbed_copies': len(pert),
                                        'with_generate_events': len([c for c in cases if c['gen']]),
                                        'multi_root': len([c for c in cases if len(c['roots']) > 1]),
@@ -802,11 +854,15 @@ class C06(Prop):
         if isinstance(obs, dict) and '__crash__' in obs:
             return None
         if case.get('k') == 'mc':
-            n, diff, ntasks = obs['mc']
-            if n != 1:
-                return 'multi-channel %s on %r (event on %r): caller resumed %d times' % (case['op'], case['chans'], case['fire'], n)
-            if diff or ntasks:
-                return 'multi-channel %s on %r: residue %r, tasks %d' % (case['op'], case['chans'], diff, ntasks)
+            wlog, diff, ntasks = obs['mc']
+            elog, ediff = mc_expect(case)
+            what = '%s(e1, %s%s), event on %r' % (case['op'], ', '.join(case['chans']),
+                                                '' if case.get('tmo') is None else ', timeout=%d' % case['tmo'],
+                                                case['chans'] if case['op'] == 'call' else case.get('fire'))
+            if wlog != elog:
+                return 'multi-channel %s: the waiting handler logged %r (2 = resumed with value/errors, 3 = TimeoutError), expected %r' % (what, wlog, elog)
+            if (ediff is not None and diff != ediff) or ntasks:
+                return 'multi-channel %s: handler table differs from before by %r (expected %r), %d tasks left' % (what, diff, ediff, ntasks)
             return None
         bad, stuck = check_trace(case, obs)
         if bad:
@@ -817,12 +873,6 @@ class C06(Prop):
 
     def finding_class(self, case, obs, what):
         if case.get('k') == 'mc':
-            # class: wait(name, c1, .., ck) with k >= 2 and the event dispatched on none but channels other than ck: never resumed,
-            # exactly its <name> and <name>_done handlers stay
-            if (case['op'] == 'wait' and len(case['chans']) >= 2 and case['chans'][-1] not in case['fire']
-                    and not (isinstance(obs, dict) and '__crash__' in obs)
-                    and obs['mc'] == [0, [['e1', 1], ['e1_done', 1]], 0]):
-                return 'C06-multichannel-wait'
             return None
         if what.startswith('gen-raise: ') and not (isinstance(obs, dict) and '__crash__' in obs):
             bad, stuck = check_trace(case, obs)
